@@ -38,6 +38,29 @@ type execCtx struct {
 	parent *execCtx
 	winMu  map[*Func]map[string]Value
 	stmtTS *Value
+	stmt   *stmtState
+	// cteDefs are the not yet evaluated CTEs of this level (evaluated on first reference)
+	cteDefs  map[string]*CTE
+	cteOrder []string
+	cteOuter *scope
+	cteErr   error
+}
+
+// stmtState is what a statement keeps across the re-executions that follow a
+// lock wait: its snapshot and the sequence values it already drew.
+type stmtState struct {
+	snap     int64
+	seqVals  []Value
+	seqNames []string
+	seqIdx   int
+}
+
+// vis is the statement-snapshot visibility of a row version.
+func (c *execCtx) vis(r *Row) bool {
+	if c.stmt == nil {
+		return c.db.visible(r, c.x)
+	}
+	return c.db.visibleSnap(r, c.x, c.stmt.snap)
 }
 
 func (c *execCtx) lookupCTE(name string) *relation {
@@ -45,12 +68,19 @@ func (c *execCtx) lookupCTE(name string) *relation {
 		if r, ok := cur.ctes[name]; ok {
 			return r
 		}
+		if _, ok := cur.cteDefs[name]; ok {
+			if err := cur.evalCTE(name); err != nil {
+				cur.cteErr = err
+				return &relation{}
+			}
+			return cur.ctes[name]
+		}
 	}
 	return nil
 }
 
 func (c *execCtx) child() *execCtx {
-	return &execCtx{db: c.db, x: c.x, conn: c.conn, ctes: map[string]*relation{}, parent: c, winMu: c.winMu, stmtTS: c.stmtTS}
+	return &execCtx{db: c.db, x: c.x, conn: c.conn, ctes: map[string]*relation{}, parent: c, winMu: c.winMu, stmtTS: c.stmtTS, stmt: c.stmt}
 }
 
 type relation struct {
@@ -1109,6 +1139,22 @@ func (c *execCtx) evalFunc(f *Func, sc *scope) (Value, error) {
 		name, err := argText(0)
 		if err != nil {
 			return Null, err
+		}
+		if st := c.stmt; st != nil {
+			// a statement re-executed after a lock wait draws each value once, as PostgreSQL would
+			if st.seqIdx < len(st.seqVals) && st.seqNames[st.seqIdx] == name {
+				v := st.seqVals[st.seqIdx]
+				st.seqIdx++
+				return v, nil
+			}
+			v, err := c.db.nextval(name)
+			if err != nil {
+				return v, err
+			}
+			st.seqVals = append(st.seqVals[:st.seqIdx:st.seqIdx], v)
+			st.seqNames = append(st.seqNames[:st.seqIdx:st.seqIdx], name)
+			st.seqIdx++
+			return v, nil
 		}
 		return c.db.nextval(name)
 	case "currval":
